@@ -333,6 +333,20 @@ fn container_programs() -> Vec<(String, String, bool)> {
     }
     // containers that contain themselves, never printed
     let selfy = "let a = [1]; push(a, a); let b = [1]; push(b, b); let m = map {}; m[\"self\"] = m; let m2 = map {};";
+    // output builtins and the interpreter's own diagnostics while stdout (name prefix "stdout-full:") fails
+    for src in [
+        "puts(1); puts(\"a\", [1, 2]); puts();",
+        "print(\"x\"); println(\"{} {}\", 1, \"y\"); print(\"{}\", \"0123456789\" * 2000);",
+        "let i = 0; while i < 3000 { i = i + 1; puts(i); }",
+        "println(\"before\"); 1 / 0;",
+        "puts(1); nosuch;",
+        "puts(1); let y = ;",
+        "input(\"prompt: \");",
+        "println(\"a\"); [1, 2, 3]",
+        "eprintln(\"to stderr\"); eprint(\"x\"); puts(2);",
+    ] {
+        v.push((format!("stdout-full: {}", src), src.to_string(), false));
+    }
     for (n, use_, cyclic_walk) in [
         ("length and element access", "puts(len(a), len(a[1]), len(m));", false),
         ("dropped at exit", "puts(1);", false),
@@ -506,6 +520,18 @@ impl Property for P08 {
         }
         if k >= self.filt.len() + 3 + LONG_STREAM.len() {
             let (name, src, walks) = &self.cont[k - self.filt.len() - 3 - LONG_STREAM.len()];
+            if name.starts_with("stdout-full:") {
+                // once with stdout on a full device, once with stderr too (through a shell redirection)
+                let o = run_bin_ext(&["-c", src], b"line\n", &[], 60, Some("/dev/full"));
+                let sh = format!("exec \"{}\" -c '{}' > /dev/full 2> /dev/full", bin_path(), src.replace('\'', "'\\''"));
+                let o2 = run_prog("/bin/sh", &["-c", &sh], b"line\n", &[], 60, None);
+                for (which, r) in [("stdout", &o), ("stdout and stderr", &o2)] {
+                    if r.timed_out || r.signal.is_some() || r.status == Some(101) || r.err_s().contains("panicked at") {
+                        return CaseOut::viol("output-device-fails crash", format!("`{}` with {} on /dev/full: status {:?} signal {:?} stderr {}", src, which, r.status, r.signal, one_line(&r.err_s(), 200)));
+                    }
+                }
+                return CaseOut::pass("output-device-fails ok");
+            }
             let o = run_bin(&["-c", src], b"", &[], 60);
             if o.crashed() {
                 let err = o.err_s();
@@ -550,7 +576,7 @@ impl Property for P08 {
         }
     }
     fn rule(&self) -> String {
-        format!("every one of the {} builtins x arity 0..3 x every tuple of {} argument kinds {:?}; every builtin x every single and every pair of {} boundary values (integer limits, shift/precision boundaries, surrogate/astral code points, special floats, boundary strings, invalid UTF-8 byte arrays, mixed arrays); {} recursion/frame/locals programs (direct recursion of arity 1-4 with 0-3 locals to depths around 4096 and unbounded, mutual/closure/non-tail recursion, functions with up to 256 locals called at stack heights around the limit, literals exhausting the operand stack); {} filter programs (break/continue/return at every position of actions and end actions, every truthiness representative as pattern with and without an action, filters inside functions/blocks/loops/filters, failing patterns and actions) run on a two-packet stream through an in-process copy of main.rs's filter loop and through the binary; exit statuses through the binary; containers nested 10 .. 200000 deep and containers that contain themselves, dropped / compared / hashed / rendered (never printed when self-containing) through the binary. Oracle: never a panic, abort, signal or hang. the complete operator x boundary-operand table of C09 is re-run with the crash-only oracle. (The generated program spaces of C02, C04, C05 also report crashes.)", self.nb, NKINDS, KIND_NAMES, self.bvals.len(), self.rec.len(), self.filt.len())
+        format!("every one of the {} builtins x arity 0..3 x every tuple of {} argument kinds {:?}; every builtin x every single and every pair of {} boundary values (integer limits, shift/precision boundaries, surrogate/astral code points, special floats, boundary strings, invalid UTF-8 byte arrays, mixed arrays); {} recursion/frame/locals programs (direct recursion of arity 1-4 with 0-3 locals to depths around 4096 and unbounded, mutual/closure/non-tail recursion, functions with up to 256 locals called at stack heights around the limit, literals exhausting the operand stack); {} filter programs (break/continue/return at every position of actions and end actions, every truthiness representative as pattern with and without an action, filters inside functions/blocks/loops/filters, failing patterns and actions) run on a two-packet stream through an in-process copy of main.rs's filter loop and through the binary; exit statuses through the binary; containers nested 10 .. 200000 deep and containers that contain themselves, dropped / compared / hashed / rendered (never printed when self-containing) through the binary; output builtins and diagnostics with stdout / stderr on a full device. Oracle: never a panic, abort, signal or hang. the complete operator x boundary-operand table of C09 is re-run with the crash-only oracle. (The generated program spaces of C02, C04, C05 also report crashes.)", self.nb, NKINDS, KIND_NAMES, self.bvals.len(), self.rec.len(), self.filt.len())
     }
     fn bounds(&self) -> Value {
         json!({"builtin_kind_calls": self.n_kind, "builtin_boundary_calls": self.n_bound, "recursion_programs": self.rec.len(), "filter_programs": self.filt.len(), "binary_runs": self.n_e2e()})
